@@ -93,13 +93,14 @@ UF_LINK_ENS = {
     "w1": "__CPROVER_ensures(UF_ROOT(w1) == ((__CPROVER_old(UF_ROOT(w1)) == x || __CPROVER_old(UF_ROOT(w1)) == y) ? UF_ROOT(x) : __CPROVER_old(UF_ROOT(w1))))",
     "w2": "__CPROVER_ensures(UF_ROOT(w2) == ((__CPROVER_old(UF_ROOT(w2)) == x || __CPROVER_old(UF_ROOT(w2)) == y) ? UF_ROOT(x) : __CPROVER_old(UF_ROOT(w2))))",
     # the concrete structure represents this new partition (representation invariant, acyclicity via DEPTH)
-    "inv": "__CPROVER_ensures(UF_INV(UG) && UF_DEPTH(UG) <= __CPROVER_old(UF_DEPTH(UG)) + 1)",
+    "chain": "__CPROVER_ensures(UF_CHAIN(UG) && UF_DEPTH(UG) <= __CPROVER_old(UF_DEPTH(UG)) + 1)",
+    "rep": "__CPROVER_ensures(UF_REP(UG))",
 }
 # lemma split (as in spec/pool.py): every lemma group enforces a subset of the ensures clauses; the ghost witness is written
 # only at the cells that subset inspects.  The union of the lemmas is the full contract used by callers.
-UF_LINK_LEMMAS = {"root": ["xy", "ug"], "root2": ["ug2"], "wit": ["w1", "w2"], "inv": ["inv"]}
+UF_LINK_LEMMAS = {"root": ["xy", "ug"], "root2": ["ug2"], "wit": ["w1", "w2"], "chain": ["chain"], "rep": ["rep"]}
 UF_LINK_CELLS = {"root": (["x", "y", "UG"], []), "root2": (["x", "UG2"], []), "wit": (["x", "w1", "w2"], []),
-                 "inv": (["UG", "uf_parent[UG]", "GH_NEWROOT(UG)"], ["UG", "uf_parent[UG]"])}
+                 "chain": (["UG", "uf_parent[UG]"], ["UG", "uf_parent[UG]"]), "rep": (["UG", "GH_NEWROOT(UG)"], [])}
 
 
 def _link_suffix(root_cells, depth_cells):
@@ -731,28 +732,36 @@ __CPROVER_decreases(m_edge_positions_tmp_n - t_)
 """})
 
 
+CB_CAPS = "m_edges_n <= m_edges_cap && m_edge_positions_tmp_n <= m_edge_positions_tmp_cap"
+CB_LEMMAS = {
+    "pos": "CB_INV_POS(GB)",
+    "edge": "(GEDGE < m_edges_n ==> CB_EDGE_OK(GEDGE)) && CB_ROOT_OK",
+}
 CB_STATE_REQ = r"""
 __CPROVER_requires(m_edge_positions_n == nbasins_)
 __CPROVER_requires(CB_INV_POS(GB) && (GEDGE < m_edges_n ==> CB_EDGE_OK(GEDGE)) && CB_ROOT_OK)
 """
-CB_STATE_ENS = r"""
-__CPROVER_ensures(m_edge_positions_n == nbasins_ && m_edges_n >= __CPROVER_old(m_edges_n))
-__CPROVER_ensures(CB_INV_POS(GB) && (GEDGE < m_edges_n ==> CB_EDGE_OK(GEDGE)) && CB_ROOT_OK)
-"""
+
+
+def cb_state_ens(lemma=None):
+    ls = list(CB_LEMMAS) if lemma in (None, "lowest") else [lemma]
+    if lemma == "lowest":
+        ls = []
+    return ("__CPROVER_ensures(m_edge_positions_n == nbasins_ && m_edges_n >= __CPROVER_old(m_edges_n) && %s)\n" % CB_CAPS +
+            "".join("__CPROVER_ensures(%s)\n" % CB_LEMMAS[l] for l in ls))
+
+
+def cb_state_inv(lemma=None):
+    ls = list(CB_LEMMAS) if lemma is None else [lemma]
+    # the callee contracts require the whole state predicate, so every lemma carries all of it as invariant
+    return "m_edge_positions_n == nbasins_ && %s && " % CB_CAPS + " && ".join(CB_LEMMAS[l] for l in CB_LEMMAS)
+
+
 CB_ASSIGNS_EDGES = ("__CPROVER_object_whole(m_edges), m_edges_n, __CPROVER_object_whole(m_edge_positions), __CPROVER_object_whole(m_edge_positions_tmp), "
                     "m_edge_positions_tmp_n, current_basin, __CPROVER_object_whole(CB_TSLOT)")
 
 
-def make_cb_visit(nb):
-    return Unit(
-        name="cb_visit", file=BG_H, anchor=CB_ANCHOR, inner=r"for \(auto n : grid\.neighbors\(idfs, neighbors\)\)\s*\{",
-        sig="void cb_visit(%s, size_t idfs, double ielev, struct neighbor n)" % CB_PARAMS, defs=CB_DEFS, body_prefix=CB_LOCALS,
-        rules=[RB(r"if \(current_basin != ibasin\)", "{ cb_switch(%s, nbasin); }" % CB_ARGS),
-               V(r"\bcontinue;", "return; /* `continue` of the outlined loop body */")] + CB_VOCAB,
-        contract=CB_SHAPE + CB_STATE_REQ + r"""
-__CPROVER_requires(idfs < gsize && n.idx < gsize && ibasin < nbasins_ && SAME_D(ielev, elevation[idfs]))
-__CPROVER_assigns(""" + CB_ASSIGNS_EDGES + r""")
-""" + CB_STATE_ENS + r"""
+CB_LOWEST = r"""
 /* C15.connect.lowest_pass, at the moment the adjacent pair (idfs, n) is seen: unless the pair is left to the other side
  * (the neighbour's basin is an inner basin with a smaller or equal id) the edge (ibasin, basin of n) now exists, its position is
  * recorded, and its pass elevation is not above max(elevation of the two nodes of this pair) */
@@ -762,10 +771,22 @@ __CPROVER_ensures((!CB_MASKED(n.idx) && basins_a[n.idx] < nbasins_ && outlets[ba
      && m_edges[POS(basins_a[n.idx])].link[0] == ibasin && m_edges[POS(basins_a[n.idx])].link[1] == basins_a[n.idx]
      && m_edges[POS(basins_a[n.idx])].pass[0] != SIZE_MAX
      && !(FSL_MAX(ielev, elevation[n.idx]) < m_edges[POS(basins_a[n.idx])].pass_elevation)))
-""")
+"""
 
 
-def make_cb_node(nb):
+def make_cb_visit(nb, lemma=None):
+    return Unit(
+        name="cb_visit", file=BG_H, anchor=CB_ANCHOR, inner=r"for \(auto n : grid\.neighbors\(idfs, neighbors\)\)\s*\{",
+        sig="void cb_visit(%s, size_t idfs, double ielev, struct neighbor n)" % CB_PARAMS, defs=CB_DEFS, body_prefix=CB_LOCALS,
+        rules=[RB(r"if \(current_basin != ibasin\)", "{ cb_switch(%s, nbasin); }" % CB_ARGS),
+               V(r"\bcontinue;", "return; /* `continue` of the outlined loop body */")] + CB_VOCAB,
+        contract=CB_SHAPE + CB_STATE_REQ + r"""
+__CPROVER_requires(idfs < gsize && n.idx < gsize && ibasin < nbasins_ && SAME_D(ielev, elevation[idfs]))
+__CPROVER_assigns(""" + CB_ASSIGNS_EDGES + r""")
+""" + cb_state_ens(lemma) + (CB_LOWEST if lemma in (None, "lowest") else ""))
+
+
+def make_cb_node(nb, lemma=None):
     return Unit(
         name="cb_node", file=BG_H, anchor=CB_ANCHOR, inner=r"for \(const auto idfs : dfs_indices\)\s*\{",
         sig="void cb_node(%s, size_t idfs)" % CB_PARAMS, defs=CB_DEFS,
@@ -777,18 +798,24 @@ def make_cb_node(nb):
         contract=CB_SHAPE + CB_STATE_REQ + r"""
 __CPROVER_requires(idfs < gsize && (is_inner_basin == 0 || is_inner_basin == 1) && (is_inner_basin ==> ibasin < nbasins_))
 __CPROVER_assigns(m_root, ibasin, is_inner_basin, """ + CB_ASSIGNS_EDGES + r""")
-""" + CB_STATE_ENS + r"""
+""" + cb_state_ens(lemma) + r"""
 __CPROVER_ensures((is_inner_basin == 0 || is_inner_basin == 1) && (is_inner_basin ==> ibasin < nbasins_))
-/* the root is chosen once: an outer outlet defines it if it is still undefined, nothing else ever changes it */
-__CPROVER_ensures(m_root == __CPROVER_old(m_root) || (__CPROVER_old(m_root) == SIZE_MAX && CB_OUTER_OUTLET(idfs)))
-__CPROVER_ensures(CB_OUTER_OUTLET(idfs) ==> m_root != SIZE_MAX)
-""")
+""",
+        # the neighbour scan (at most n_neighbors_max iterations) is closed by a loop contract: one visit per iteration
+        loops={0: r"""
+__CPROVER_assigns(nb_k, """ + CB_ASSIGNS_EDGES + r""")
+__CPROVER_loop_invariant(nb_k <= neighbors_n && neighbors_n <= FSL_NBMAX && m_edges_n >= __CPROVER_loop_entry(m_edges_n))
+__CPROVER_loop_invariant(%s)
+__CPROVER_loop_invariant(%s)
+__CPROVER_decreases(neighbors_n - nb_k)
+""" % (cb_state_inv(), " && ".join("(%d < neighbors_n ==> neighbors[%d].idx < gsize)" % (k, k) for k in range(nb)))})
 
 
-def make_cb_outer(nb):
-    inv = r"""(m_edge_positions_n == nbasins_ && CB_INV_POS(GB) && (GEDGE < m_edges_n ==> CB_EDGE_OK(GEDGE)) && CB_ROOT_OK
-   && (is_inner_basin == 0 || is_inner_basin == 1) && (is_inner_basin ==> ibasin < nbasins_)
-   && ((GPOS < p_ && dfs_indices[GPOS] < gsize && CB_OUTER_OUTLET(dfs_indices[GPOS])) ==> m_root != SIZE_MAX))"""
+def make_cb_outer(nb, lemma=None):
+    inv = "(" + cb_state_inv() + r""" && (is_inner_basin == 0 || is_inner_basin == 1) && (is_inner_basin ==> ibasin < nbasins_))"""
+    ens = {"pos": "__CPROVER_ensures(m_edge_positions_n == nbasins_ && CB_INV_POS(GB))\n",
+           "edge": "/* every edge present on return was built in this call: root link or pass with pass_elevation = max of its two pass nodes */\n"
+                   "__CPROVER_ensures(CB_ROOT_OK && (GEDGE < m_edges_n ==> CB_EDGE_OK(GEDGE)))\n"}
     return Unit(
         name="connect_basins", file=BG_H, anchor=CB_ANCHOR, sig="void connect_basins(%s)" % CB_PARAMS, defs=CB_DEFS,
         rules=[R(r"using neighbors_type = [^;]*;", "", 1),
@@ -803,17 +830,9 @@ def make_cb_outer(nb):
                RB(r"for \(size_t p_ = 0; p_ < gsize; \+\+p_\)",
                   "{ size_t idfs_ = dfs_indices[FSL_IDX1(p_, gsize)]; FSL_PRE(idfs_ < gsize); cb_node(%s, idfs_); }" % CB_ARGS)] + CB_VOCAB,
         contract=CB_SHAPE + r"""
-__CPROVER_requires(GPOS < gsize)
 /* NOTHING is required of m_root, m_edges, m_edge_positions, m_edge_positions_tmp (C09: the result must not depend on earlier calls) */
 __CPROVER_assigns(m_root, ibasin, is_inner_basin, m_edge_positions_n, """ + CB_ASSIGNS_EDGES + r""")
-/* C15 / C09: on return the root is undefined or an outer basin OF THE CURRENT TABLES, and it is defined as soon as an unmasked
- * base-level outlet was visited */
-__CPROVER_ensures(CB_ROOT_OK)
-__CPROVER_ensures((dfs_indices[GPOS] < gsize && CB_OUTER_OUTLET(dfs_indices[GPOS])) ==> m_root != SIZE_MAX)
-/* every edge present on return was built in this call: root link or pass with pass_elevation = max of its two pass nodes */
-__CPROVER_ensures(GEDGE < m_edges_n ==> CB_EDGE_OK(GEDGE))
-__CPROVER_ensures(m_edge_positions_n == nbasins_ && CB_INV_POS(GB))
-""",
+""" + "".join(ens[l] for l in ens if lemma in (None, l)),
         loops={0: r"""
 __CPROVER_assigns(p_, m_root, ibasin, is_inner_basin, """ + CB_ASSIGNS_EDGES + r""")
 __CPROVER_loop_invariant(p_ <= gsize)
@@ -850,29 +869,31 @@ def cb_groups(nb, tier="quick"):
     sw, vis, node, outer = make_cb_switch(nb), make_cb_visit(nb), make_cb_node(nb), make_cb_outer(nb)
     defs = ["FSL_NBMAX=%d" % nb]
     base = [is_masked, is_base_level, cb_make_edge]
-    return [
+    gs = [
         Group(name="basin.connect.switch", units=base + [sw], extra_c=[MODEL_H], defines=defs,
               harness=_hcb("cb_switch", "cb_switch(%s, nondet_size_t())" % CB_ARGS, nb), entry="h_cb_switch", enforce="cb_switch",
               loop_contracts=True, backend="cvc5", timeout=600, min_obligations=20, tier=tier,
-              clause="connect_basins, change of current basin: every recorded edge position is reset (ghost basin), the visited list is emptied"),
-        Group(name="basin.connect.visit", units=base + [sw, vis], extra_c=[MODEL_H], defines=defs,
-              harness=_hcb("cb_visit", "cb_visit(%s, nondet_size_t(), nondet_double(), nn)" % CB_ARGS, nb), entry="h_cb_visit", enforce="cb_visit",
-              replace=["cb_switch"], backend="cvc5", timeout=900, min_obligations=50, tier=tier,
-              clause="connect_basins, one adjacent node pair: afterwards the edge of the basin pair exists with pass_elevation <= max(elevation of "
-                     "the pair), every stored edge has pass_elevation == max(elevation of its two pass nodes), edge-position table invariant kept"),
-        Group(name="basin.connect.node.nb%d" % nb, units=base + [vis, node], extra_c=[MODEL_H], defines=defs,
-              harness=_hcb("cb_node", "cb_node(%s, nondet_size_t())" % CB_ARGS, nb), entry="h_cb_node", enforce="cb_node",
-              replace=["cb_visit", "grid_neighbors"], unwindset={("cb_node", 0): nb + 1}, backend="cvc5", timeout=900, min_obligations=50, tier=tier,
-              clause="connect_basins, one node of the bottom-up order: root chosen once and only from an unmasked base-level outlet, outer basins "
-                     "linked to the root, invariants kept across the neighbour scan (<= %d neighbours)" % nb),
-        Group(name="basin.connect.loop", units=base + [node, outer], extra_c=[MODEL_H], defines=defs,
-              harness=_hcb("connect_basins", "connect_basins(%s)" % CB_ARGS, nb), entry="h_connect_basins", enforce="connect_basins",
-              replace=["cb_node", "fsl_vsz_resize_b", "fsl_vsz_fill_b"], loop_contracts=True, backend="cvc5", timeout=900, min_obligations=50, tier=tier,
-              clause="connect_basins on ARBITRARY pre-state of m_root / m_edges / m_edge_positions(_tmp) (per-call reset, C09): on return m_root is "
-                     "undefined or an outer basin of the current tables and is defined once an outer outlet was visited; every edge present was "
-                     "built in this call (root link, or pass with pass_elevation == max of its pass nodes)"),
-    ]
-
+              clause="connect_basins, change of current basin: every recorded edge position is reset (ghost basin), the visited list is emptied")]
+    what = {"pos": "the edge-position scratch table keeps its invariant (a defined position is the edge (current basin, b), recorded for reset)",
+            "edge": "every stored edge is a root link or a pass with pass_elevation == max(elevation of its two pass nodes); root stays an outer basin",
+            "lowest": "the edge of the basin pair exists afterwards with pass_elevation <= max(elevation of the pair just seen)"}
+    for l in ("pos", "edge", "lowest"):
+        gs.append(Group(name="basin.connect.visit.%s" % l, units=base + [sw, make_cb_visit(nb, l)], extra_c=[MODEL_H], defines=defs,
+                        harness=_hcb("cb_visit", "cb_visit(%s, nondet_size_t(), nondet_double(), nn)" % CB_ARGS, nb), entry="h_cb_visit",
+                        enforce="cb_visit", replace=["cb_switch"], backend="cvc5", timeout=2400, min_obligations=50, tier="thorough",
+                        clause="connect_basins, one adjacent node pair, lemma `%s`: %s" % (l, what[l])))
+    for l in ("pos", "edge"):
+        gs.append(Group(name="basin.connect.node.%s" % l, units=base + [vis, make_cb_node(nb, l)], extra_c=[MODEL_H], defines=defs,
+                        harness=_hcb("cb_node", "cb_node(%s, nondet_size_t())" % CB_ARGS, nb), entry="h_cb_node", enforce="cb_node",
+                        replace=["cb_visit", "grid_neighbors"], loop_contracts=True, backend="cvc5", timeout=2400, min_obligations=50, tier="thorough",
+                        clause="connect_basins, one node of the bottom-up order (neighbour scan closed by a loop contract), lemma `%s`: %s" % (l, what[l])))
+        gs.append(Group(name="basin.connect.loop.%s" % l, units=base + [node, make_cb_outer(nb, l)], extra_c=[MODEL_H], defines=defs,
+                        harness=_hcb("connect_basins", "connect_basins(%s)" % CB_ARGS, nb), entry="h_connect_basins", enforce="connect_basins",
+                        replace=["cb_node", "fsl_vsz_resize_b", "fsl_vsz_fill_b"], loop_contracts=True, backend="cvc5", timeout=2400,
+                        min_obligations=50, tier="thorough",
+                        clause="connect_basins on ARBITRARY pre-state of m_root / m_edges / m_edge_positions(_tmp) (per-call reset, C09), lemma `%s`: %s"
+                               % (l, what[l])))
+    return gs
 
 
 # ---- root slice: the choice / per-call reset of m_root alone, with the inner-basin block abstracted by its frame ----
@@ -883,6 +904,7 @@ CB_INNER_DECL = r"""
 void cb_inner_block(%s, size_t idfs)
 __CPROVER_assigns(%s)
 __CPROVER_ensures(m_edges_n >= __CPROVER_old(m_edges_n) && m_edge_positions_n == __CPROVER_old(m_edge_positions_n))
+__CPROVER_ensures(m_edges_n <= m_edges_cap && m_edge_positions_tmp_n <= m_edge_positions_tmp_cap)
 ;
 """ % (CB_PARAMS, CB_ASSIGNS_EDGES)
 
@@ -894,7 +916,7 @@ cb_node_root = Unit(
     contract=CB_SHAPE + r"""
 __CPROVER_requires(idfs < gsize && CB_ROOT_OK)
 __CPROVER_assigns(m_root, ibasin, is_inner_basin, """ + CB_ASSIGNS_EDGES + r""")
-__CPROVER_ensures(CB_ROOT_OK && m_edge_positions_n == __CPROVER_old(m_edge_positions_n))
+__CPROVER_ensures(CB_ROOT_OK && m_edge_positions_n == __CPROVER_old(m_edge_positions_n) && m_edges_n <= m_edges_cap && m_edge_positions_tmp_n <= m_edge_positions_tmp_cap)
 /* the root is chosen once: an unmasked base-level outlet defines it if it is still undefined, nothing else ever changes it */
 __CPROVER_ensures(m_root == __CPROVER_old(m_root) || (__CPROVER_old(m_root) == SIZE_MAX && CB_OUTER_OUTLET(idfs)))
 __CPROVER_ensures(CB_OUTER_OUTLET(idfs) ==> m_root != SIZE_MAX)
@@ -916,7 +938,7 @@ __CPROVER_ensures((dfs_indices[GPOS] < gsize && CB_OUTER_OUTLET(dfs_indices[GPOS
 """,
     loops={0: r"""
 __CPROVER_assigns(p_, m_root, ibasin, is_inner_basin, """ + CB_ASSIGNS_EDGES + r""")
-__CPROVER_loop_invariant(p_ <= gsize && m_edge_positions_n == nbasins_ && CB_ROOT_OK)
+__CPROVER_loop_invariant(p_ <= gsize && m_edge_positions_n == nbasins_ && CB_ROOT_OK && m_edges_n <= m_edges_cap && m_edge_positions_tmp_n <= m_edge_positions_tmp_cap)
 __CPROVER_loop_invariant((GPOS < p_ && dfs_indices[GPOS] < gsize && CB_OUTER_OUTLET(dfs_indices[GPOS])) ==> m_root != SIZE_MAX)
 __CPROVER_decreases(gsize - p_)
 """})
@@ -939,4 +961,76 @@ CB_GROUPS = cb_groups(2)
 
 GROUPS = {"C15": [G_UF_FIND, G_UF_MERGE] + G_UF_LINK + [G_UF_RESIZE, G_UF_CLEAR, G_UF_PUSH, G_KR_CMP, G_KR_STEP] + G_KR_LOOP + CB_ROOT_GROUPS + CB_GROUPS,
           "C01": [G_SB_STEP, G_SB_LOOP]}
-PROPS = {"C15": dict(level="other", assumptions=[], undecided=[], unmechanised=[], explanation="")}
+GROUPS["C09"] = G_KR_LOOP + [g for g in CB_ROOT_GROUPS if g.name.endswith(".loop")] + [g for g in CB_GROUPS if ".loop." in g.name] + [G_UF_CLEAR, G_UF_RESIZE]
+
+PROPS = {
+    "C15": dict(
+        level="other",
+        explanation="Union-find operations, Kruskal's greedy step and loop, the root choice / per-call resets and the local lowest-pass step of "
+                    "connect_basins are decided by unbounded contracts (ghost-element idiom); that the resulting tree is a MINIMUM spanning tree is "
+                    "Kruskal's theorem on top of these (unmechanised); Boruvka, edge orientation and the global lowest-pass statement are not covered.",
+        assumptions=UF_MODEL_ASSUMPTIONS + [
+            "union_find representation invariant UF_CHAIN(i) (parent inside the universe and in the same class; fixed point <=> own representative; "
+            "DEPTH 0 at roots, strictly decreasing along parent) is a forall-i invariant of the object: proved for an arbitrary ghost element by every "
+            "operation (find, merge/link, resize, clear, push_back) and instantiated where find reads parent[i] (DESIGN 3.2/3.9)",
+            "union_find: the well-founded measure DEPTH is a size_t < SIZE_MAX (no wrap-around when a merge shifts the absorbed class by one); a measure "
+            "bounded by the number of elements always exists for an acyclic parent forest",
+            "find(e, w1, w2): two ghost witness parameters added to the C signature (elements at which the caller wants `fixed points stay fixed points`); "
+            "uf_link(x, y, w1, w2) likewise; merge's linking block `if (x != y) {...}` is outlined as unit uf_link",
+            "ghost update convention: operations that change the abstract partition (link, resize, push_back) write the witness ROOT'/DEPTH' by ghost code at "
+            "the cells the postcondition inspects (existential postcondition `a consistent new ROOT assignment exists`); callers see ROOT/DEPTH in the frame",
+            "std::sort with the comparator lambda modelled by fsl_sort_edges (TRUSTED: std::sort sorts): output is a permutation of the input sorted by the "
+            "comparator, stated through ghost positions SP1, SP2 and the ghost edge KGE at position KPOS; the comparator lambda itself is extracted and proved "
+            "to be a strict weak order on non-NaN weights",
+            "kruskal loop: reading m_edges_indices[k] instantiates the sort model's forall-postcondition `every entry is an edge index` and the input "
+            "well-formedness `link[0], link[1] < basins_count()` of that edge (producer: connect_basins / compute_basins, C19)",
+            "std::vector growth: buffers live at a ghost capacity; `length < capacity` at push_back is a precondition instance (model artefact: the real vector "
+            "reallocates), never a property of the code",
+            "connect_basins: inputs basins()/outlets()/dfs_indices() instantiated on read: unmasked nodes have a basin id < basins_count(), outlets[basins(o)] == o "
+            "for an unmasked outlet o, outlet nodes and dfs entries are grid nodes (producers: compute_basins C19, order contract C06); neighbour contract of C07 "
+            "at grid.neighbors(i, buf)",
+            "connect_basins: CB_INV_POS (a defined entry of m_edge_positions is the index of the edge (current basin, b), and b is recorded in m_edge_positions_tmp) "
+            "is a forall-b invariant of a mutable scratch table: proved for an arbitrary ghost basin by switch / visit / node / loop groups, instantiated where the "
+            "table is read (IH instance, DESIGN 3.9); m_edge_positions_tmp entries are basin ids (same idiom)",
+            "connect_basins root slice: the block `if (is_inner_basin) {...}` is abstracted by its frame (does not write m_root / ibasin / is_inner_basin), "
+            "which is what the assigns clauses enforced in basin.connect.visit.* / basin.connect.node.* state",
+            "locals of connect_basins that live across iterations (ibasin, current_basin, is_inner_basin) are shared with the outlined loop bodies as globals",
+        ],
+        unmechanised=[
+            "Kruskal's theorem: scanning the edges in non-decreasing weight and keeping an edge iff it joins two different classes yields a minimum "
+            "spanning forest (cut property); the contracts prove the premises (sorted scan via the trusted sort model, greedy step, exact union of classes)",
+            "union-find: `for every element: INV`  ==>  find(a) == find(b) iff a and b are in the same class of the abstract partition (definition of ROOT)",
+            "lowest pass, global form: the local step (edge of the pair exists with pass_elevation <= this pair, edges only ever replaced by lower passes of the "
+            "same basin pair) composes to `pass_elevation is the minimum over all adjacent pairs of the two basins` only with the order contract "
+            "(nodes of one basin are contiguous in dfs_indices, basin ids increase along it) -- not mechanised",
+        ],
+        undecided=[
+            "compute_tree_boruvka (460-702): not under contract (the degree > 16 path cannot be reached by any bound CBMC can unwind)",
+            "orient_edges (711-819): not under contract; `every tree edge points away from the root`, spanning-ness and |tree| == basins-1 are reachability/"
+            "counting statements",
+            "Kruskal == Boruvka weight; tree spans all basins reachable from the root",
+            "tree entries are in non-decreasing weight order (needs a slot -> position ghost map; not done)",
+        ],
+    ),
+    "C09": dict(
+        level="other",
+        explanation="basin-graph part of C09 only: compute_tree_kruskal and connect_basins are proved with ARBITRARY pre-state of every scratch member "
+                    "(m_tree, m_edges_indices, union-find, m_root, m_edges, m_edge_positions, m_edge_positions_tmp), so their contracts cannot depend on earlier calls.",
+        undecided=["orient_edges / compute_tree_boruvka scratch vectors (m_low_degrees, m_large_degrees ...) not covered"],
+    ),
+    "C01": dict(
+        level="other",
+        explanation="basin-graph part of C01 only: after update_routes_sinks_basic the pit of every tree edge with a pass is not its own receiver and its "
+                    "receiver chain leaves its basin within two steps.",
+        assumptions=[
+            "update_routes_sinks_basic: tree entries are edge indices; an oriented tree edge with a pass is well-formed (two different basins < basins_count(), "
+            "pass nodes are grid nodes lying in the basin of their side, the pit is the outlet of the inflow basin) -- input instances at the edge read "
+            "(producers connect_basins / orient_edges / compute_basins, not all under contract)",
+            "update_routes_sinks_basic loop: different tree edges flow INTO different basins (the oriented tree gives every basin but the root exactly one "
+            "incoming edge) -- instance at the pair (ghost slot, current slot); producer orient_edges is not under contract",
+            "outflow / inflow indices are read from the static constexpr members of the operator implementation on every run",
+        ],
+        undecided=["update_routes_sinks_carve (292-334): not under contract (the while loop walks a receiver path of unbounded length; needs a path ghost)",
+                   "that the re-routed forest is acyclic and rooted at base levels is a reachability statement (bounded pipeline group not built)"],
+    ),
+}
